@@ -160,7 +160,9 @@ Section Parse.
                   if b1 then PErr EFlow     (* `until` finds a pending break *)
                   else pseq f r1 (leave e e1) terms (SUntil body pu :: acc) brk
                 | POk body "repeat" _ r1 e1 _ => pseq f r1 (leave e e1) terms (SRepeat body :: acc) brk
-                | POk cond "while" pw r1 e1 _ =>
+                | POk cond "while" pw r1 e1 bc =>
+                  if bc then PErr EFlow       (* `repeat` expects the Begin right below the While: a break in the condition part is refused *)
+                  else
                   match pseq f r1 e1 ["repeat"] [] false with
                   | POk body "repeat" _ r2 e2 _ => pseq f r2 (leave e e2) terms (SWhile cond pw body :: acc) brk
                   | POk _ _ _ _ _ _ => PErr EFlow
@@ -199,28 +201,29 @@ Section Parse.
                 end
               else if String.eqb w "local" then
                 match skipb rest with
-                | (TWord name, _, _) :: r0 =>
+                | (TWord name, na, nb) :: r0 =>
+                  (* the instruction is attributed to the NAME token (the last token read when it is emitted) *)
                   match plocals e with
-                  | Some ls => pseq f r0 (set_locals e (Some (ls ++ [name])%list)) terms (SLocSet (length ls) p :: acc) brk
+                  | Some ls => pseq f r0 (set_locals e (Some (ls ++ [name])%list)) terms (SLocSet (length ls) (na, nb) :: acc) brk
                   | None => PErr EFlow
                   end
                 | _ => PErr EExpectName
                 end
               else if String.eqb w "var" then
                 match skipb rest with
-                | (TWord name, _, _) :: r0 =>
+                | (TWord name, na, nb) :: r0 =>
                   if (0 <? nest e)%nat then PErr EFlow
                   else
                     let a := nheap e in
                     let e1 := mkpenv ((name, BVar a) :: names e) (funs e) (nfun e) (S a) (plocals e) (loopdepth e) (nest e) in
-                    pseq f r0 e1 terms (SSet a p :: acc) brk
+                    pseq f r0 e1 terms (SSet a (na, nb) :: acc) brk
                 | _ => PErr EExpectName
                 end
               else if String.eqb w "!" then
                 match skipb rest with
-                | (TWord name, _, _) :: r0 =>
+                | (TWord name, na, nb) :: r0 =>
                   match lookup (names e) name with
-                  | Some (BVar x) => pseq f r0 e terms (SSet x p :: acc) brk
+                  | Some (BVar x) => pseq f r0 e terms (SSet x (na, nb) :: acc) brk
                   | Some _ => PErr EReadonly
                   | None => if is_native name || mem keywords name || mem other_immediates name
                             then PErr EReadonly else PErr EUnknown
